@@ -14,6 +14,8 @@ open Irismod Irismod.Sdk Irismod.Htlc Irismod.Spec.C03 Irismod.Spec.C04 Irismod.
 #print axioms limits_init
 #print axioms supplyTrack_run
 #print axioms window_exact
+#print axioms tl_only_by_incoming_claim
+#print axioms create_keeps_window
 #print axioms refund_cannot_fail
 #print axioms claim_incoming_never_fails
 -- non-vacuity: the demo history (Audit/C03) satisfies the hypotheses (Inv by inv_init, no self-recipient, params unchanged)
